@@ -1086,6 +1086,10 @@ func runL4(args []string) {
 			if c.Op == "iter" {
 				rep.addHolds("C14", f) // "for every sequence of Next, Get and Close calls an Iterator never panics"
 			}
+			if c.Ctx == "nil" {
+				// "a nil context behaves as context.Background()": it does not crash the call
+				rep.addHolds("C20", Finding{Case: caseJSON, Kind: "holds", Detail: "a call made with a nil context panicked (a nil context behaves as context.Background()): " + obs.Panic})
+			}
 			return
 		}
 		resp, err := cl.Call(map[string]any{"k": "rt", "sub": "l4", "case": c, "obs": obs})
